@@ -218,6 +218,81 @@ def run_case(case):
         shutil.rmtree(d, ignore_errors=True)
 
 
+# ---- the loader: single-change patch files that do not commute (a chain of renames), arranged on the command line
+LSRC = "package p\n\nfunc h() {\n\tr0(1)\n\t_ = r0(r2(2))\n\tr3(3)\n}\n"
+LCHG = {"a%d.patch" % i: "@@\nvar x expression\n@@\n-r%d(x)\n+r%d(x, %d)\n" % (i, (i + 1) % 5, i) for i in range(5)}
+LCHG["twice.patch"] = "@@\nvar x expression\n@@\n-r1(x)\n+wrap(r1(x))\n"          # applied twice when named twice
+
+
+def loader_case(rng, k):
+    names = sorted(LCHG)
+    np_ = rng.choice([0, 1, 2, 3, 3])
+    ps = [rng.choice(names) for _ in range(np_)]
+    use_list = rng.random() < 0.6
+    listed = [rng.choice(names) for _ in range(rng.randint(0, 4))] if use_list else []
+    files = dict(LCHG)
+    shape = "%d -p%s" % (np_, ", -P list of %d" % len(listed) if use_list else "")
+    r = rng.random()
+    if r < 0.15 and (ps or listed):            # a missing file somewhere
+        tgt = ps if (ps and (not listed or rng.random() < 0.5)) else listed
+        tgt[rng.randrange(len(tgt))] = "missing%d.patch" % k
+        shape += ", one missing"
+    elif r < 0.3 and (ps or listed):           # a file that is not a patch
+        files["broken.patch"] = "this is not a patch\n"
+        tgt = ps if (ps and (not listed or rng.random() < 0.5)) else listed
+        tgt[rng.randrange(len(tgt))] = "broken.patch"
+        shape += ", one broken"
+    list_content = None
+    if use_list:
+        sep = rng.choice(["\n", "\r\n"])
+        lines = []
+        for n in listed:
+            if rng.random() < 0.3:
+                lines.append("")
+            lines.append(n)
+        list_content = sep.join(lines) + (sep if rng.random() < 0.7 else "")
+        if rng.random() < 0.2:
+            list_content = sep + list_content
+    stdin = rng.choice([LCHG["a3.patch"], "garbage on stdin\n", ""])
+    argv = []
+    for n in ps:
+        argv += ["-p", n]
+    if use_list:
+        argv += ["-P", "list.txt"]
+    mfiles = " ".join("(%s (ok %s))" % (vlib.hx(n), vlib.hx(n)) if n != "broken.patch" else "(%s bad)" % vlib.hx(n) for n in sorted(files))
+    if use_list:
+        mfiles += " (%s (list %s))" % (vlib.hx("list.txt"), vlib.hx(list_content) if list_content else "x")
+    sid = "none" if stdin == "" or stdin.startswith("garbage") else vlib.hx("stdin")
+    model = "(loader (patches %s) (list %s) (stdin %s) (files %s))" % (" ".join(vlib.hx(n) for n in ps), vlib.hx("list.txt") if use_list else "none", sid, mfiles)
+    return {"argv": argv, "files": files, "list_content": list_content, "stdin": stdin, "model": model, "shape": shape}
+
+
+def run_loader_case(cm):
+    c, m = cm
+    d = vlib.scratch("c09l")
+    try:
+        for n, t in c["files"].items():
+            open(os.path.join(d, n), "w").write(t)
+        if c["list_content"] is not None:
+            open(os.path.join(d, "list.txt"), "wb").write(c["list_content"].encode())
+        open(os.path.join(d, "a.go"), "w").write(LSRC)
+        rc, so, se = vlib.run_gopatch(c["argv"] + ["a.go"], d, stdin=c["stdin"].encode())
+        comb = open(os.path.join(d, "a.go"), "rb").read()
+        chain = None
+        if m[0] == "result" and m[1][0] == "ok":
+            hd = os.path.join(d, "chain"); os.makedirs(hd)
+            open(os.path.join(hd, "a.go"), "w").write(LSRC)
+            for i, idb in enumerate(m[1][1:]):
+                nm = vlib.unhx(idb).decode()
+                text = c["stdin"] if nm == "stdin" else c["files"][nm]
+                open(os.path.join(hd, "s%d.patch" % i), "w").write(text)
+                vlib.run_gopatch(["-p", "s%d.patch" % i, "a.go"], hd)
+            chain = open(os.path.join(hd, "a.go"), "rb").read()
+        return {"rc": rc, "stderr": se.decode("utf-8", "replace")[:600], "comb": comb, "chain": chain}
+    finally:
+        shutil.rmtree(d, ignore_errors=True)
+
+
 def main():
     ck = vlib.Check("C09")
     coq_ok, coq_log = vlib.build()
@@ -277,6 +352,38 @@ def main():
         if mo["skipped"]:
             continue
         enginecheck.report(ck, "c09#%d" % k, pairs[k], mo, "none", {"mode": mode})
+    # ---------------- which patch files are loaded, and in which order (Model/Loader.v): -p in order, then the -P list line by
+    # line (blank lines skipped, CRLF, no final newline, a file named twice is applied twice), stdin only without -p/-P;
+    # the first file that is missing or does not compile ends the run and is named, nothing is applied
+    lcases = [loader_case(ck.rng, k) for k in range(400 if thorough else 80)]
+    lmodels = vlib.model([c["model"] for c in lcases])
+    louts = vlib.pmap(run_loader_case, list(zip(lcases, lmodels)))
+    lsrcs = sorted(set(x for o in louts for x in (o["comb"], o["chain"]) if x is not None))
+    ldig = dict(zip(lsrcs, vlib.harness("astdump", {"srcs": [b64(u) for u in lsrcs], "strip_parens": True})["dumps"])) if lsrcs else {}
+    for k, (c, m, o) in enumerate(zip(lcases, lmodels, louts)):
+        ck.count(("loader", c["model"]), nontrivial=True)
+        ck.tally("mode", "loader: " + c["shape"])
+        rep = {"case": "c09loader#%d" % k, "argv": c["argv"], "files": c["files"], "list": c.get("list_content"), "stdin": c["stdin"], "file": LSRC,
+               "model": m, "exit": o["rc"], "stderr": o["stderr"], "combined_output": (o["comb"] or b"").decode("utf-8", "replace")}
+        if m[0] != "result":
+            ck.mismatch("loader model error %r" % (m,), rep, "corr:loader (Model/Loader.v vs main.go loadPatches / loader.go)"); continue
+        if m[1][0] == "err":
+            bad = vlib.unhx(m[1][2]).decode()
+            ck.tally("loader_outcome", "a patch file cannot be loaded")
+            if o["rc"] == 0:
+                ck.violation("patch file %s cannot be loaded (missing or not a patch) but the run exits 0" % bad, rep)
+            elif o["comb"] != LSRC.encode():
+                ck.violation("patch file %s cannot be loaded, yet the target was modified" % bad, rep)
+            elif bad not in o["stderr"]:
+                ck.violation("patch file %s cannot be loaded; stderr does not name it: %r" % (bad, o["stderr"][:200]), rep)
+            continue
+        ck.tally("loader_outcome", "loaded %d patch file(s)" % (len(m[1]) - 1))
+        if o["rc"] != 0:
+            ck.violation("every patch file loads (by the loader model) but the run fails: %s" % o["stderr"][:160], rep); continue
+        dc, dh = ldig[o["comb"]], ldig[o["chain"]]
+        if dc != dh:
+            ck.violation("the patch files were not applied in the order -p (as given), then the -P list (line by line) - or not each once per mention: "
+                         "combined run and the chain in that order differ", dict(rep, chained_output=o["chain"].decode("utf-8", "replace")))
     ck.sample({"mode": cases[3][3], "changes": cases[3][0], "file": cases[3][2]})
     ck.sample({"mode": cases[7][3], "changes": cases[7][0], "file": cases[7][2]})
     ck.cov["rule"] = ("%d sequences of 2-6 changes (renames over 5 function names in 7 '+' shapes incl. ones that re-introduce the removed name; "
